@@ -32,7 +32,7 @@ set_option linter.unusedSectionVars false
 /-! ## the four cases of one invocation -/
 
 /-- An uncached section runs its body and delivers the body's content through its filter. -/
-theorem uncached_runs_body (P : Params R) (env : Env) (h : Hdr) (arg : Option Expr) (site : Bool) (body rest : Items)
+theorem uncached_runs_body (P : Params R) (env : Env) (h : Hdr) (arg : Option Expr) (site : Site) (body rest : Items)
     (st : St R) (hc : h.cached = false) :
     run P env (.inv h arg site body rest) st =
       let b := run P (scope P h env arg) body st
@@ -45,19 +45,19 @@ example : (exPage false).cached = false := rfl
 /-- **hit**: caching enabled and the back end holds `v` under the section's key – `visible`: stored, and (when the
     implementation honours `starttime`) not before the template was compiled: `v` is delivered, the body is not
     executed – the result is the same for every body – and the store is untouched. -/
-theorem hit_serves_stored_value (P : Params R) (env : Env) (h : Hdr) (arg : Option Expr) (site : Bool)
-    (body rest : Items) (st : St R) (v : Str) (hc : h.cached = true) (hen : st.enabled P.tid = true)
-    (hs : visible P.be st P.tid (backendKey P st h (scope P h env arg)) = some v) :
+theorem hit_serves_stored_value (P : Params R) (env : Env) (h : Hdr) (arg : Option Expr) (site : Site)
+    (body rest : Items) (st : St R) (v : Str) (hc : h.cached = true) (hen : st.enabled (eff P h).tid = true)
+    (hs : visible P.be st (eff P h).tid (backendKey P st h (scope P h env arg)) = some v) :
     run P env (.inv h arg site body rest) st =
       let st1 := (afterCall P st h (scope P h env arg)).emit
-        (.enter P.tid (fname h) (backendKey P st h (scope P h env arg)) (.hit v))
+        (.enter (eff P h).tid (fname h) (backendKey P st h (scope P h env arg)) (.hit v))
       let r := run P env rest st1
       (deliver h site v ++ r.1, r.2) :=
   run_inv_hit P env h arg site body rest st v hc hen hs
 
-theorem hit_ignores_body (P : Params R) (env : Env) (h : Hdr) (arg : Option Expr) (site : Bool)
-    (body body' rest : Items) (st : St R) (v : Str) (hc : h.cached = true) (hen : st.enabled P.tid = true)
-    (hs : visible P.be st P.tid (backendKey P st h (scope P h env arg)) = some v) :
+theorem hit_ignores_body (P : Params R) (env : Env) (h : Hdr) (arg : Option Expr) (site : Site)
+    (body body' rest : Items) (st : St R) (v : Str) (hc : h.cached = true) (hen : st.enabled (eff P h).tid = true)
+    (hs : visible P.be st (eff P h).tid (backendKey P st h (scope P h env arg)) = some v) :
     run P env (.inv h arg site body rest) st = run P env (.inv h arg site body' rest) st := by
   rw [run_inv_hit P env h arg site body rest st v hc hen hs, run_inv_hit P env h arg site body' rest st v hc hen hs]
 
@@ -65,24 +65,24 @@ theorem hit_ignores_body (P : Params R) (env : Env) (h : Hdr) (arg : Option Expr
     which the call was recorded), what is delivered *and stored under the key* is exactly the value of the
     uncached section at that moment, and the ghost event `created` records value, callable, section (header and body),
     scope, render context and the store / flags / memos the creation function started from. -/
-theorem miss_creates_uncached_output (P : Params R) (env : Env) (h : Hdr) (arg : Option Expr) (site : Bool)
-    (body rest : Items) (st : St R) (hc : h.cached = true) (hen : st.enabled P.tid = true)
-    (hs : visible P.be st P.tid (backendKey P st h (scope P h env arg)) = none) :
+theorem miss_creates_uncached_output (P : Params R) (env : Env) (h : Hdr) (arg : Option Expr) (site : Site)
+    (body rest : Items) (st : St R) (hc : h.cached = true) (hen : st.enabled (eff P h).tid = true)
+    (hs : visible P.be st (eff P h).tid (backendKey P st h (scope P h env arg)) = none) :
     run P env (.inv h arg site body rest) st =
       let env' := scope P h env arg
       let K := backendKey P st h env'
-      let st0 := (afterCall P st h env').emit (.enter P.tid (fname h) K .miss)
+      let st0 := (afterCall P st h env').emit (.enter (eff P h).tid (fname h) K .miss)
       let v := sectionValue P env' h body st0
       let r := run P env rest (((run P env' body st0).2.put K v).emit
-        (.created P.tid (fname h) K v ⟨h, body, env', P.ctx, st0.snap⟩))
+        (.created (eff P h).tid (fname h) K v ⟨P.tid, h, body, env', P.ctx, st0.snap⟩))
       (deliver h site v ++ r.1, r.2) :=
   run_inv_miss P env h arg site body rest st hc hen hs
 
 /-- **disabled**: `cache_enabled = False`: the body runs every time, the back end is neither asked nor told. -/
-theorem disabled_runs_every_time (P : Params R) (env : Env) (h : Hdr) (arg : Option Expr) (site : Bool)
-    (body rest : Items) (st : St R) (hc : h.cached = true) (hen : st.enabled P.tid = false) :
+theorem disabled_runs_every_time (P : Params R) (env : Env) (h : Hdr) (arg : Option Expr) (site : Site)
+    (body rest : Items) (st : St R) (hc : h.cached = true) (hen : st.enabled (eff P h).tid = false) :
     run P env (.inv h arg site body rest) st =
-      let st0 := st.emit (.bypass P.tid (fname h))
+      let st0 := st.emit (.bypass (eff P h).tid (fname h))
       let b := run P (scope P h env arg) body st0
       let r := run P env rest b.2
       (deliver h site (sectionValue P (scope P h env arg) h body st0) ++ r.1, r.2) :=
@@ -466,7 +466,7 @@ theorem invalidate_def_is_callable_name (h : Hdr) :
     returned iff `buffered` (then an expression filter at the call site applies to it; a block's call site writes it),
     written otherwise – for module-level callables and, since `write_inline_def` passes `buffered` on
     (`gen_inline_passes_buffered`, regenerated from `codegen.py`), for nested defs and anonymous blocks too. -/
-theorem cached_delivers_like_uncached (h : Hdr) (site : Bool) (v : Str) :
+theorem cached_delivers_like_uncached (h : Hdr) (site : Site) (v : Str) :
     deliver h site v = deliver { h with cached := false } site v := by
   have hg := gen_inline_passes_buffered
   cases hc : h.cached <;> simp [deliver, returnsValue, hc, hg]
